@@ -2,6 +2,7 @@
 //! usage: wfsim <property> quick|thorough | --replay <file> | --digest <n> | --one <arm> <run>
 
 mod c01;
+mod c02;
 mod c13;
 mod dispatch;
 mod pipe;
@@ -16,6 +17,7 @@ fn main() {
     };
     let spec = match id.as_str() {
         "C01" => c01::spec(),
+        "C02" => c02::spec(),
         "C13" => c13::spec(),
         _ => {
             eprintln!("HARNESS-ERROR unknown property {id} for this build");
